@@ -1,50 +1,24 @@
 (* C08 -- format files are tokenised and interpreted as the Standards specify.
    Property theorems only; definitions in C08/Token.v (model of _GD_Tokenise),
    C08/TokSpec.v (dirfile-format(5) "Tokens"), C08/Standards.v (HISTORY table),
-   Gen/Gates.v (gates regenerated from src/parse.c, src/name.c). *)
+   Gen/Gates.v (gates regenerated from src/parse.c, src/name.c), C08/Names.v
+   (_GD_ValidateField and "Field Names").
+   In Token.v / Names.v the Boolean parameter fx = true selects the code as it
+   is now (after the fix commits e8e73fb and be0b187). *)
 From Coq Require Import List NArith Bool Arith.
 From GD Require Import C08.Token C08.TokSpec C08.TokLemmas C08.TokBounds C08.TokAgree
   C08.Standards Gen.Gates C08.GatesDefs C08.GatesProofs C08.Names C08.NamesProofs.
 Import ListNotations.
 Open Scope N_scope.
 
-(* ---- tokeniser: the full statement, for the code as it is (fx = false) ---- *)
-Definition tokenise_agrees_statement : Prop :=
-  forall (v6 : bool) (s : list N), tok_impl false v6 s = tok_spec v6 s.
-
-(* refuted on the unchanged code: "\1" is a complete octal escape for the
-   Standards and an unterminated token for _GD_Tokenise *)
-Theorem tokenise_agrees_refuted : exists v6 s, tok_impl false v6 s <> tok_spec v6 s.
-Proof. exact tok_impl_refuted. Qed.
-
-(* the exact excluded region: the string ends inside a numeric escape *)
-Theorem tokenise_agrees_partial : forall (v6 : bool) (s : list N),
-  pending_numeric v6 s = false -> tok_impl false v6 s = tok_spec v6 s.
-Proof. exact tok_impl_partial. Qed.
-
-(* ... and there the code reports "unterminated token" *)
-Theorem tokenise_pending_unterminated : forall (v6 : bool) (s : list N),
-  pending_numeric v6 s = true -> tok_impl false v6 s = TErr ErrUnterm.
-Proof. exact tok_impl_pending. Qed.
-
-(* every LF-terminated line -- every complete line of a format file -- is
-   outside the excluded region *)
-Theorem tokenise_agrees_lines : forall (v6 : bool) (s : list N),
-  tok_impl false v6 (s ++ [10]) = tok_spec v6 (s ++ [10]).
-Proof. exact tok_impl_lines. Qed.
-
-(* with proposed_fixes/C08-2.diff (fx = true) the full statement holds *)
+(* ---- tokeniser: a line is split into tokens exactly as dirfile-format(5)
+   describes, for every byte string and both dialects (v6 = Version >= 6) ---- *)
 Theorem tokenise_agrees : forall (v6 : bool) (s : list N), tok_impl true v6 s = tok_spec v6 s.
 Proof. exact tok_impl_fixed_spec. Qed.
 
-(* the hypotheses are satisfiable, both ways *)
-Example pending_example : pending_numeric true [97; 92; 117; 52] = true /\
-                          pending_numeric true [97; 92; 117; 52; 10] = false.
-Proof. split; vm_compute; reflexivity. Qed.
-
 (* ---- C05: the tokeniser never writes past its buffers (any tok_want, any
-   dialect, with or without the fix): the tokens with their terminating NULs
-   fit the strdup'ed line, n_cols <= tok_want, *pos stays inside the line ---- *)
+   dialect): the tokens with their terminating NULs fit the strdup'ed line,
+   n_cols <= tok_want, *pos stays inside the line ---- *)
 Theorem tokeniser_output_bounded : forall (fx v6 : bool) (want : nat) (s : list N),
   let o := tokenise fx v6 want s in
   (tok_bytes (toks o) <= S (length s))%nat /\ (length (toks o) <= want)%nat /\
@@ -52,52 +26,18 @@ Theorem tokeniser_output_bounded : forall (fx v6 : bool) (want : nat) (s : list 
 Proof. exact tokenise_bounded. Qed.
 
 (* ---- version gates: parser table (translated) = HISTORY table (transcribed) ---- *)
-Theorem gates_agree_partial : forall g, g <> T_SINDIR -> code_gate g = Some (spec_gate g).
-Proof. exact gates_partial. Qed.
-
-(* SINDIR is gated at Version 2 (the pinned tree) or 10 (proposed_fixes/C08-1.diff) *)
-Theorem gates_sindir_status :
-  code_gate T_SINDIR = Some 2%nat \/ code_gate T_SINDIR = Some (spec_gate T_SINDIR).
-Proof. exact gates_sindir. Qed.
-
-(* so the full statement is decided on whatever tree was translated *)
-Theorem gates_agree_decided :
-  gates_agree_statement \/ (exists g, code_gate g <> Some (spec_gate g)).
-Proof. exact gates_decided. Qed.
+Theorem gates_agree : forall g, code_gate g = Some (spec_gate g).
+Proof. exact gates_agree_all. Qed.
 
 Theorem gates_translation_complete : translator_problems = 0%nat.
 Proof. exact translator_clean. Qed.
 
 (* what it means for the parser *)
 Theorem feature_applies_as_standards : forall pedantic standards g,
-  g <> T_SINDIR -> code_applies pedantic standards g = spec_applies pedantic standards g.
+  code_applies pedantic standards g = spec_applies pedantic standards g.
 Proof. exact applies_agree. Qed.
 
-Theorem sindir_accepted_where_standards_accept : forall pedantic standards,
-  spec_applies pedantic standards T_SINDIR = true -> code_applies pedantic standards T_SINDIR = true.
-Proof. exact sindir_superset. Qed.
-
 (* ---- field names (_GD_ValidateField, new field name, pedantic mode) ---- *)
-Definition validate_name_statement : Prop :=
-  forall (v : nat) (s : list N), validate_field false VF_NAME 0 v true s = negb (spec_name_ok v s).
-
-(* refuted on the unchanged code: "a#b" is accepted at Standards Version 4 *)
-Theorem validate_name_agrees_refuted :
-  exists v s, validate_field false VF_NAME 0 v true s <> negb (spec_name_ok v s).
-Proof. exact validate_name_refuted. Qed.
-
-(* the exact excluded region: a space up to Version 5, a '#' up to Version 4 *)
-Theorem validate_name_agrees_partial : forall (v : nat) (s : list N),
-  forallb (fun c => negb (quirk v c)) s = true ->
-  validate_field false VF_NAME 0 v true s = negb (spec_name_ok v s).
-Proof. exact validate_name_partial. Qed.
-
-(* with proposed_fixes/C08-3.diff the full statement holds (the reserved words
-   are compared through the regenerated gate table) *)
 Theorem validate_name_agrees : forall (v : nat) (s : list N),
   validate_field true VF_NAME 0 v true s = negb (spec_name_ok v s).
 Proof. exact validate_name_fixed. Qed.
-
-Example validate_name_region_inhabited :
-  forallb (fun c => negb (quirk 4 c)) [97; 38; 98] = true /\ quirk 4 35 = true /\ quirk 5 35 = false.
-Proof. repeat split; vm_compute; reflexivity. Qed.
